@@ -102,13 +102,18 @@ class ImageBatch(DataTensor):
         r"""Get spatial sampling grids from args passed to __torch_function__."""
         if not args:
             return None
+        dim = kwargs.get("dim")
+        if dim is None:
+            # Positional 'dim' argument of torch.cat(tensors, dim) and split functions (input, arg, dim)
+            i = 1 if isinstance(args[0], (tuple, list)) else 2
+            dim = args[i] if len(args) > i and isinstance(args[i], int) else 0
         if isinstance(args[0], (tuple, list)):
             args = args[0]
         grids: Sequence[Sequence[Grid]]
         grids = [g for g in (getattr(arg, "_grid", None) for arg in args) if g is not None]
         if not grids:
             return None
-        if kwargs.get("dim", 0) == 0:
+        if dim == 0:
             if func == torch.cat:
                 return [g for grid in grids for g in grid]
             if func in (torch.split, Tensor.split):
